@@ -296,6 +296,11 @@ def geom_in_box(rng, typ: str, t0: float, t1: float, f0: float, f1: float) -> di
             lines.append(line_in_box(rng, a, b, lo, hi))
         if not lines:
             lines = [line_in_box(rng, t0, t1, f0, f1)]
+        if len(lines) > 1 and rng.random() < 0.35:
+            # a contour drawn in several strokes: each stroke starts exactly where the previous one ended
+            for k in range(1, len(lines)):
+                if lines[k][-1][0] > lines[k - 1][-1][0]:
+                    lines[k][0] = list(lines[k - 1][-1])
         return {"type": typ, "coordinates": lines}
     if typ == "Polygon":
         return polygon_in_box(rng, t0, t1, f0, f1)
@@ -461,6 +466,56 @@ def regroupings(spec: dict) -> list:
         try:
             g = data.geometry_validate(s2, mode="dict")
         except Exception:
+            continue
+        res.append(to_spec(g))
+    return res
+
+
+def lookalikes(spec: dict) -> list:
+    """Valid geometries of OTHER types that coincide with ``spec`` under some projection a careless identity might
+    use: the same ``coordinates`` payload under another type tag (a contour and its nodes, a point and an interval),
+    or the same shapely shape (a time stamp and the full-height vertical line it is converted to, an interval and
+    the full-height box, a box and its rectangle polygon, a one-member multi-geometry and its member)."""
+    t, c = spec["type"], spec["coordinates"]
+    maxf = float(MAXF)
+    cand = []
+    if t == "TimeStamp":
+        cand += [("LineString", [[c, 0.0], [c, maxf]])]
+    elif t == "TimeInterval":
+        cand += [("BoundingBox", [c[0], 0.0, c[1], maxf]), ("Point", list(c))]
+    elif t == "Point":
+        cand += [("MultiPoint", [list(c)]), ("TimeInterval", list(c))]
+    elif t == "MultiPoint":
+        cand += [("LineString", [list(p) for p in c])] + ([("Point", list(c[0]))] if len(c) == 1 else [])
+    elif t == "LineString":
+        cand += [("MultiPoint", [list(p) for p in c]), ("MultiLineString", [[list(p) for p in c]])]
+        if len(c) >= 4:
+            cand += [("Polygon", [[list(p) for p in c]])]
+    elif t == "MultiLineString":
+        cand += [("Polygon", [[list(p) for p in l] for l in c]), ("MultiPolygon", [[[list(p) for p in l] for l in c]])]
+        if len(c) == 1:
+            cand += [("LineString", [list(p) for p in c[0]])]
+    elif t == "Polygon":
+        cand += [("MultiLineString", [[list(p) for p in r] for r in c]), ("MultiPolygon", [[[list(p) for p in r] for r in c]])]
+        if len(c) == 1:
+            cand += [("LineString", [list(p) for p in c[0]])]
+    elif t == "MultiPolygon":
+        if len(c) == 1:
+            cand += [("Polygon", [[list(p) for p in r] for r in c[0]]), ("MultiLineString", [[list(p) for p in r] for r in c[0]])]
+    elif t == "BoundingBox":
+        a, lo, b, hi = c
+        cand += [("Polygon", [[[a, lo], [b, lo], [b, hi], [a, hi], [a, lo]]])]
+        if lo == 0.0 and hi == maxf:
+            cand += [("TimeInterval", [a, b])]
+    res = []
+    from soundevent import data
+
+    for typ, co in cand:
+        try:
+            g = data.geometry_validate({"type": typ, "coordinates": co}, mode="dict")
+        except Exception:
+            continue
+        if typ not in ("TimeStamp", "TimeInterval", "BoundingBox") and not is_shapely_valid(g):
             continue
         res.append(to_spec(g))
     return res
